@@ -2,10 +2,23 @@
 # Sensitivity self-test: every stored seeded change (seeded/<name>/patch.diff) is applied to a
 # scratch worktree of /repo's HEAD and the quick check of the property it breaks is run against it.
 # Exit 0 if every one is reported (exit 1 of its check), 1 otherwise. Usage: [names...]
+# With FAST=1 the demonstration and the repository's own suite are not re-run (they were confirmed
+# when the seed was kept, see confirm_suites.sh) and JOBS seeds are tried at a time.
 set -u
 ROOT="$(cd "$(dirname "${BASH_SOURCE[0]}")" && pwd)"
 cd "$ROOT"
 names=("$@"); [ ${#names[@]} -gt 0 ] || names=($(ls seeded))
+if [ -n "${FAST:-}" ]; then
+  export TRY_SEED_FAST=1
+  one() {
+    n=$1; out=$(./try_seed.sh "seeded/$n" 2>&1 | grep -v "^WARNING")
+    if echo "$out" | grep -q "^check .*exit=1"; then echo "caught  $n  $(echo "$out" | grep -m1 'signature:' | sed 's/^ *//' | cut -c1-90)"
+    else echo "MISSED  $n"; echo "$out" | tail -5; fi
+  }
+  export -f one
+  printf '%s\n' "${names[@]}" | xargs -P "${JOBS:-3}" -I{} bash -c 'one {}' | tee /dev/stderr | grep -q "^MISSED" && exit 1
+  exit 0
+fi
 miss=0
 for n in "${names[@]}"; do
   out=$(./try_seed.sh "seeded/$n" 2>&1 | grep -v "^WARNING")
